@@ -306,9 +306,113 @@ let frames_family (dir : string) =
   finish ();
   close_out oc
 
+(* ---------------- family "proxy" ---------------- *)
+let proxy_family (dir : string) =
+  let lines = read_lines (Filename.concat dir "cases.txt") in
+  let oc = open_out (Filename.concat dir "model.txt") in
+  let k = ref 0 and i = ref 0 in
+  let cfg = ref None and st = ref None in
+  List.iter (fun line ->
+    match tokens line with
+    | ["P"; kk; rd; cl; fa; ew; total] ->
+        k := int_of_string kk; i := 0;
+        let c = { is_reader = sb rd; has_close = sb cl; has_fast = sb fa; has_ewma = int_of_string ew >= 0 } in
+        cfg := Some c; st := Some (binit (cz total) true false false);
+        Printf.fprintf oc "%d -1 offers %s\n" !k (bs (offers_fast c))
+    | "c" :: rest ->
+        (match !cfg, !st with
+         | Some c, Some s ->
+             let (call, r) = (match rest with
+               | ["T"; fast; n; e] -> (PTransfer (sb fast), { rn = cz n; rerr = cz e })
+               | ["C"; e] -> (PClose, { rn = Z0; rerr = cz e })
+               | _ -> failwith "bad proxy call") in
+             (match pstep c s call r with
+              | Some (s', o) ->
+                  st := Some s';
+                  let smp = (match o.osample with Some n -> " S " ^ zs n | None -> "") in
+                  Printf.fprintf oc "%d %d %s %s %s %s 1%s\n" !k !i (zs o.on) (zs o.oerr) (bs o.oforwarded) (zs s'.current) smp
+              | None -> Printf.fprintf oc "%d %d REFUSED\n" !k !i);
+             incr i
+         | _ -> ())
+    | ["end"] | [] -> ()
+    | _ -> failwith ("bad line: " ^ line)) lines;
+  close_out oc
+
+(* ---------------- family "fmt" ---------------- *)
+let render_fixed (neg, ip, fp, p) : string =
+  let ips = zs ip in
+  let pn = zi p in
+  let body = if pn > 0 then
+      let f = zs fp in
+      ips ^ "." ^ String.make (pn - String.length f) '0' ^ f
+    else ips in
+  (if neg then "-" else "") ^ body
+
+let go_quote (s : string) : string = "\"" ^ String.escaped s ^ "\""
+
+let fmt_family (dir : string) =
+  let lines = read_lines (Filename.concat dir "cases.txt") in
+  let oc = open_out (Filename.concat dir "model.txt") in
+  let k = ref 0 and i = ref 0 and zdur = ref Z0 in
+  let names base idx =
+    let l = if base = "1024" then ["b"; "KiB"; "MiB"; "GiB"; "TiB"] else ["b"; "KB"; "MB"; "GB"; "TB"] in
+    List.nth l idx in
+  let prec_of p = if p = "-1" then None else Some (cz p) in
+  let size_string base v cls prec space suffix =
+    let us = if base = "1024" then units1024 else units1000 in
+    match size_format us (cz v) (cz cls) (prec_of prec) (sb space) with
+    | Some (((((neg, ip), fp), p), idx), sp) ->
+        Some (render_fixed (neg, ip, fp, p) ^ (if sp then " " else "") ^ names base (inat idx) ^ suffix)
+    | None -> None in
+  List.iter (fun line ->
+    match tokens line with
+    | ["Z"; kk; base; v; cls; prec; space; _verb] ->
+        (match size_string base v cls prec space "" with
+         | Some s -> Printf.fprintf oc "%s 0 %s\n" kk (go_quote s)
+         | None ->
+             let us = if base = "1024" then units1024 else units1000 in
+             ignore us;
+             (* other float verbs: only the unit is predicted *)
+             let idx = (match size_format us (cz v) (czi 2) None false with
+               | Some (((((_, _), _), _), idx), _) -> inat idx | None -> -1) in
+             Printf.fprintf oc "%s 0 OTHER %d 1\n" kk idx)
+    | ["Q"; kk; total; cur; cls; prec; space; _verb] ->
+        (match percent_format (cz total) (cz cur) (cz cls) (prec_of prec) with
+         | Some (((neg, ip), fp), p) ->
+             Printf.fprintf oc "%s 0 %s w0\n" kk (go_quote (render_fixed (neg, ip, fp, p) ^ (if sb space then " %" else "%")))
+         | None -> Printf.fprintf oc "%s 0 OTHER 1 w0\n" kk)
+    | ["T"; kk; style; rem] ->
+        let fs = time_fields (cz style) (cz rem) in
+        let s = String.concat ":" (List.map (fun f -> Printf.sprintf "%02d" (zi f)) fs) in
+        Printf.fprintf oc "%s 0 %s\n" kk (go_quote s)
+    | ["V"; kk; base; v; cls; prec; space; _verb; den] ->
+        if base = "0" || cls = "1" then Printf.fprintf oc "%s 0 OTHER 1\n" kk
+        else
+          let sp = speed_of_avg_q (cz v) (cz den) in
+          (match size_string base (zs sp) cls prec space "/s" with
+           | Some s -> Printf.fprintf oc "%s 0 %s\n" kk (go_quote s)
+           | None -> Printf.fprintf oc "%s 0 OTHER 1\n" kk)
+    | ["E"; kk; _which] -> k := int_of_string kk; i := 0; zdur := Z0
+    | ["s"; n; dur] ->
+        let (z', smp) = ewma_update !zdur (cz n) (cz dur) in
+        zdur := z';
+        (match smp with
+         | Some q ->
+             (match float_bits q with
+              | Some ((neg, m), e) -> Printf.fprintf oc "%d %d A %s%sp%s%s\n" !k !i (if neg then "-" else "") (zs m)
+                                         (if zi e >= 0 then "+" else "") (zs e)
+              | None -> Printf.fprintf oc "%d %d A ?\n" !k !i)
+         | None -> Printf.fprintf oc "%d %d -\n" !k !i);
+        incr i
+    | ["end"] | [] -> ()
+    | _ -> failwith ("bad line: " ^ line)) lines;
+  close_out oc
+
 let () =
   match Array.to_list Sys.argv with
   | [_; "bar"; dir] -> bar_family dir
   | [_; "fill"; dir] -> fill_family dir
   | [_; "frames"; dir] -> frames_family dir
+  | [_; "proxy"; dir] -> proxy_family dir
+  | [_; "fmt"; dir] -> fmt_family dir
   | _ -> prerr_endline "usage: mpbmodel <family> <dir>"; exit 2
